@@ -133,11 +133,12 @@ def arm_callees(ctx, f, adt_suffix):
         tgts = {tg for _, tg in arms}
         for v, tg in arms:
             # blocks reachable from this arm but not from the other arms (exclusive region)
-            mine = cfg.reach_from(tg)
+            # (forward edges only: inside a loop every arm reaches every other arm through the back edge)
+            mine = cfg.reach_forward(tg)
             others = set()
             for v2, tg2 in arms:
                 if tg2 != tg:
-                    others |= cfg.reach_from(tg2)
+                    others |= cfg.reach_forward(tg2)
             region = mine - others
             out[v] = {cfg.blocks[b].term.path for b in region if cfg.blocks[b].term.k == "call"}
     return out
@@ -145,7 +146,13 @@ def arm_callees(ctx, f, adt_suffix):
 
 def inference_split(ctx):
     db, prov = ctx.db, ctx.prov
-    f = db.fn(RES + "named_instantiation_arg")
+    # anchored on the dispatched type, not on a function name: the function that matches on InstantiationArgumentName
+    # (named_instantiation_arg — or its caller, when the helper was inlined)
+    hosts = [h for h in db.fns.values() if h.id.startswith(RES) and "{closure" not in h.id and arm_callees(ctx, h, "InstantiationArgumentName")]
+    if not hosts:
+        ctx.lost("R04.2", "the dispatch on InstantiationArgumentName")
+        return
+    f = hosts[0]
     ctx.touch(f)
     arms = arm_callees(ctx, f, "InstantiationArgumentName")
     fm = RES + "find_matching_interface_name"
@@ -202,6 +209,16 @@ def assembly(ctx):
     ctx.touch(f)
     cfg = CFG(f)
     inf = calls_to(f, "AstResolver::inferred_instantiation_arg") + calls_to(f, "AstResolver::named_instantiation_arg")
+    if RES + "named_instantiation_arg" not in db.fns:
+        # the named-argument helper was inlined: its site is the dispatch on InstantiationArgumentName inside new_expr
+        class _Site:
+            pass
+        for bidx, adt, arms_, other in tables.switch_arms(db, prov, f):
+            if adt.endswith("InstantiationArgumentName"):
+                st_ = _Site()
+                st_.bb = bidx
+                inf.append(st_)
+                break
     spr = calls_to(f, "AstResolver::spread_instantiation_arg")
     # the spread pass may be written with iterator adaptors (`.filter_map(..).try_for_each(|id| self.spread_..(..))`):
     # then the call sits in a closure and its position in new_expr is the adaptor call the closure is handed to
@@ -351,11 +368,11 @@ def arm_errors(ctx, f, adt_suffix, depth=2):
         if not adt.endswith(adt_suffix):
             continue
         for v, tg in arms:
-            mine = cfg.reach_from(tg)
+            mine = cfg.reach_forward(tg)
             others = set()
             for v2, tg2 in arms:
                 if tg2 != tg:
-                    others |= cfg.reach_from(tg2)
+                    others |= cfg.reach_forward(tg2)
             region = mine - others
             out = set()
             for b in region:
